@@ -235,6 +235,7 @@ MANIFEST_META = {
                   "coefficients is compared with the grade-part definition computed from an independent reference product, and "
                   "the consequences ip+sp=lc+rc, cp+acp=gp and 'equals the selected grade parts of kingdon's own gp' are checked "
                   "on kingdon's outputs. All patterns for d<=1 (quick) / d<=2 (thorough) are enumerated, the rest sampled with "
-                  "blade-pair relations (nested, disjoint, overlapping) constructed on purpose.",
+                  "blade-pair relations (nested, disjoint, overlapping) constructed on purpose."
+                  " Since rounds 3-4: operand forms (plain number of every kind on either side, list, callable, reflected infix), the identical object on both sides (x.op(x), x ^ x), a literal number inside a registered function, graded algebras.",
     "level_note": "Trusted: kv.refalg, kv.refops, kv.ring.Q, CPython fractions, Hypothesis. Sampling for d>=3; d>5 not explored.",
 }
